@@ -23,6 +23,9 @@ CHECKS = {
     "C05": ("property-based differential testing of TryEval against an independent Kleene evaluator (rapid)",
             "Generated non-failing expression (repaired, not filtered) x 16 subsets x availability split: whenever Kleene evaluation is definite TryEval must return exactly that value, otherwise DNE with nil error (TryEvalBool: ErrDNE). Exploration.",
             "Trusted: Kleene evaluator K and operator model in harness/model.", "§3 C05"),
+    "C06": ("grammar-based fuzzing (rapid token soup, mutation of valid programs, untyped programs, exhaustive truncation) + Go native coverage-guided fuzzing; validity-predicate oracle",
+            "Every generated text is compiled under a drawn notation/option set; Compile must return exactly one of program/error without panicking; each compiled program runs Eval, TryEval, Dump, DumpTable under hostile bindings; a watchdog turns non-termination into a replayable violation and LOOP event positions must strictly increase. Thorough adds 90 s of native fuzzing on 16 workers. Exploration: absence of panics is never established.",
+            "'Never hangs' = returns within 120 s per case (cases take microseconds) plus the monotone-position invariant. Inputs bounded to 64 KiB / nesting depth 50 000; Dump only on programs below 10 000 characters.", "§3 C06"),
 }
 
 NOT_YET = {}
